@@ -66,6 +66,9 @@ extern "C" void harness(void) {
 #ifdef H_NO_KERNELKILL
   vf_assume(vf_cfg_get(CFG_FLAGS, 2) == 0);
 #endif
+#ifdef H_NO_REAP
+  vf_assume(vf_cfg_get(CFG_FLAGS, 3) == 0);
+#endif
 #ifdef H_KERNELKILL
   vf_assume(vf_cfg_get(CFG_FLAGS, 2) == 1);
 #endif
@@ -89,7 +92,42 @@ extern "C" void harness(void) {
     }
   }
   vfw::meminfo_memtotal = 1LL << 30; vfw::meminfo_swaptotal = 0;
-#if H_MODE == 3
+#if H_MODE == 5
+  // ranking unit: the real OomdContext::sortDescWithKillPrefs over three cgroup contexts whose kill preference and metric
+  // are symbolic (set directly in the cached CgroupData, the way the test helper does)
+  {
+    OomdContext& ctx = *new OomdContext;
+    static const char* kP[3] = {"a", "b", "a/x"}; static const int kN[3] = {1, 2, 3};
+    std::vector<OomdContext::ConstCgroupContextRef> v;
+    for (int i = 0; i < 3; i++) {
+      auto cg = ctx.addToCacheAndGet(CgroupPath("/c", kP[i]));
+      if (!cg) vf_fail("harness: context");
+      int pref = (int)vf_nd(K_FLAG + 20 + i, -1, 1); int64_t met = vf_nd(K_FLAG + 30 + i, 0, 3);
+      cg->get().data_->kill_preference = (KillPreference)pref; cg->get().data_->current_usage = met;
+      vf_cfg_set(CFG_NODE + kN[i], 3, (uint64_t)(int64_t)pref); vf_cfg_set(CFG_NODE + kN[i], 4, met);
+      v.push_back(*cg);
+    }
+    auto sorted = OomdContext::sortDescWithKillPrefs(v, [](const CgroupContext& c) { return c.current_usage().value_or(0); });
+    vf_event(EV_NOTE, N_SORTED, (int64_t)sorted.size(), 0, 0);
+    for (size_t i = 0; i < sorted.size() && i < 3; i++) vf_event(EV_NOTE, N_SORTED + 1 + (int)i, vfw::find_abs(sorted[i].get().cgroup().absolutePath()), 0, 0);
+  }
+#elif H_MODE == 4
+  // signalling unit: the real getAndTryToKillPids / tryToKillPids (cgroup.procs stream parsing, recursion into the cached
+  // children, kill(2)) called for victim a and then, on the same plugin object, for victim b - the situation of a fallback
+  // after a failed kill or of the next invocation. No ranking, walk or accounting around it.
+  {
+    SymKill& p = *new SymKill;
+    OomdContext& ctx = *new OomdContext;
+    static const char* kVict[2] = {"a", "b"};
+    for (int i = 0; i < 2; i++) {
+      auto cg = ctx.addToCacheAndGet(CgroupPath("/c", kVict[i]));
+      if (!cg) vf_fail("harness: victim context");
+      vf_event(EV_NOTE, N_UNITVICTIM, 1 + i, 0, 0);
+      int n = p.getAndTryToKillPids(cg->get());
+      vf_event(EV_NOTE, N_UNITRET, 1 + i, n, 0);
+    }
+  }
+#elif H_MODE == 3
   // accounting unit: the real reportKillUuidToXattr / reportKillInitiationToXattr / reportKillCompletionToXattr on node 1
   // with symbolic pre-existing values (absent / 0..50, independently for trusted. and user.) and a symbolic kill count
   {
